@@ -17,7 +17,7 @@ CodeStat(s) == <<Len(s), RunMin(s), RunMax(s), SumSeq(s), Num(s) # {}>>
 CodeBest == LET seen == {t \in Trials : Of(handed, t) # <<>>}
                 key(t) == IF cf.min THEN RunMin(Of(handed, t)) ELSE -RunMax(Of(handed, t))
             IN  IF seen = {} THEN -1 ELSE CHOOSE t \in seen : \A u \in seen : key(t) <= key(u)
-Init == InitCommon([min |-> IsMin])
+Init == InitCommon([min |-> IsMin, min2 |-> ~IsMin])
 Next ==
   \/ /\ Len(handed) < MaxLen
      /\ \E t \in Trials, v \in AllVals : EvHanded(t, v)
